@@ -4,13 +4,14 @@ from vlib import core
 
 THEOREMS = ['hdr_decode', 'hdr_short', 'hdr_encode_decode', 'hdr_decode_encode', 'marshal_refuses', 'writeHeader_eq_marshal',
             'validate_iff', 'isValid_iff', 'newInstance_type', 'newInstance_total', 'msg_consts',
+            'src_unmarshal', 'src_marshal', 'src_writeTo', 'src_writeHeader', 'src_round_trip',
             'mirror_functional', 'mirror_symm', 'mirror_injective', 'mirror_covers_table', 'mirror_covers', 'mirror_valid']
-MODULES = ['LLRP.Model.Header', 'LLRP.Model.Bytes', 'LLRP.Model.GoInt', 'LLRP.Proofs.Bytes']
+MODULES = ['LLRP.Model.Header', 'LLRP.Model.Bytes', 'LLRP.Model.GoInt', 'LLRP.Proofs.Bytes', 'LLRP.Proofs.HeaderGen']
 RULE = ('exhaustive: all 2^16 values of the first two header bytes x boundary/random lengths x ids through Header.UnmarshalBinary; '
         'versions 0-7 x type codes 0-1100 x boundary payload lengths through MarshalBinary, WriteTo and Client.writeHeader; '
         'type codes 0-2047 through IsValid, Converse, NewInstance().Type(). distinct = distinct request lines; '
         'non-trivial = request whose expected reply is not err/none/false')
-ASSUMPTIONS = ['the header model (LLRP.Model.Header) is hand-written; it is tied to messages.go/reader.go by this exhaustive differential run',
+ASSUMPTIONS = ['the header model (LLRP.Model.Header) is proved equal (src_unmarshal, src_marshal, src_writeTo, src_writeHeader) to go2lean\'s translation of Header.UnmarshalBinary / MarshalBinary / WriteTo and Client.writeHeader, regenerated from the source on every run; the exhaustive differential run validates the translator',
                'validateHeader / IsValid are go2lean translations of the source',
                'pairing spec: message XResponse answers message X (names from messages.yaml)']
 TRUSTED = ['go2lean subset semantics (LLRP.Model.GoInt)']
